@@ -286,12 +286,12 @@ proof fn vx_mark_shard_bytes<T>(si: &SessionShardInterface, js: &JoinSet<T>, n: 
 {}
 #[verifier::external_body]
 proof fn vx_mark_xorbs_drained<V>(si: &SessionShardInterface, taken: Multiset<TaskResV<V>>, now: Multiset<TaskResV<V>>)
-    requires /*@C16,C01*/ now.len() == 0, /*@C16,C01*/ drained_ok(taken, now),
+    requires /*@C16,C01,C02*/ now.len() == 0, /*@C16,C01,C02*/ drained_ok(taken, now),
     ensures si.vx_xorbs_drained(), all_ok(taken),
 {}
 #[verifier::external_body]
 proof fn vx_mark_shards_stored<V>(si: &SessionShardInterface, spawned: Multiset<TaskResV<V>>, now: Multiset<TaskResV<V>>)
-    requires /*@C16,C01*/ now.len() == 0, /*@C16,C01*/ drained_ok(spawned, now),
+    requires /*@C16,C01,C02*/ now.len() == 0, /*@C16,C01,C02*/ drained_ok(spawned, now),
     ensures si.vx_shards_stored(), all_ok(spawned),
 {}
 
@@ -341,7 +341,7 @@ impl MDBShardFile {
     /// writes a copy of the shard into `target_directory` (the local cache): from then on later sessions dedup against it
     #[verifier::external_body]
     pub fn export_with_expiration(&self, target_directory: &VxPath, shard_valid_for: Duration) -> (r: std::result::Result<Arc<MDBShardFile>, MDBShardError>)
-        requires /*@C16,C01*/ vx_shard_in_store(self.shard_hash),
+        requires /*@C16,C01,C02*/ vx_shard_in_store(self.shard_hash),
         ensures r matches Ok(n) ==> n.shard_hash == self.shard_hash,
     { unimplemented!() }
 }
@@ -407,7 +407,7 @@ impl ShardFileManager {
     /// makes the shards available for deduplication in this and (via the cache directory) later sessions
     #[verifier::external_body]
     pub fn register_shards(&self, new_shards: &[Arc<MDBShardFile>]) -> std::result::Result<(), MDBShardError>
-        requires /*@C16,C01*/ forall|i: int| 0 <= i < new_shards@.len() ==> vx_shard_in_store((#[trigger] new_shards@[i]).shard_hash),
+        requires /*@C16,C01,C02*/ forall|i: int| 0 <= i < new_shards@.len() ==> vx_shard_in_store((#[trigger] new_shards@[i]).shard_hash),
     { unimplemented!() }
 }
 #[verifier::external_body]
@@ -433,9 +433,9 @@ impl SessionShardInterface {
 //@ contract
         requires
             // "This must be called after all xorbs have completed their upload" (doc comment of the function)
-            /*@C16,C01*/ self.vx_xorbs_drained(),
+            /*@C16,C01,C02*/ self.vx_xorbs_drained(),
         ensures
-            /*@C16,C01*/ ret is Ok ==> self.vx_shards_stored(),
+            /*@C16,C01,C02*/ ret is Ok ==> self.vx_shards_stored(),
             // the reported figure is the number of bytes handed to upload_shard, summed over all session shards
             /*@C14*/ ret matches Ok(n) ==> self.dry_run || self.vx_shard_bytes_handed(n as int),
             ret matches Ok(n) ==> n <= counter_bound(),   // frame for the caller's byte sum (assumed counter bound), not C16
@@ -453,16 +453,16 @@ impl SessionShardInterface {
                 dry0 == self.dry_run, hc0 == shard_bytes_uploaded.vx_is_shared(),
                 /*@C14*/ shard_uploads.joined_v() == 0 && shard_uploads.joined_c() == 0 && shard_uploads.joined_h() == 0,
                 /*@C14*/ forall|t: TaskRec<_>| #[trigger] shard_uploads.recs().count(t) > 0 ==> shard_rec_ok(dry0, hc0, t),
-                /*@C16,C01*/ n_sp == vx_it.index@,          // one task spawned per shard taken from the list so far
-                /*@C16,C01*/ shard_uploads@.len() == n_sp,
+                /*@C16,C01,C02*/ n_sp == vx_it.index@,          // one task spawned per shard taken from the list so far
+                /*@C16,C01,C02*/ shard_uploads@.len() == n_sp,
 //@ after `shard_uploads.spawn(vx_shard_task(Ghost(dry_run), Ghost(shard_bytes_uploaded.vx_is_shared())));`
             proof { n_sp = n_sp + 1; }
 //@ before `while let Some(jh)`
         let ghost pend0 = shard_uploads@;
         // every consolidated shard has its upload task in the set that is joined below
-        assert(/*@C16,C01*/ pend0.len() == n_shards);
+        assert(/*@C16,C01,C02*/ pend0.len() == n_shards);
 //@ loop 2
-            invariant /*@C16,C01*/ drained_ok(pend0, shard_uploads@),
+            invariant /*@C16,C01,C02*/ drained_ok(pend0, shard_uploads@),
                 /*@C14*/ forall|t: TaskRec<_>| #[trigger] shard_uploads.recs().count(t) > 0 ==> shard_rec_ok(dry0, hc0, t),
                 /*@C14*/ !hc0 ==> shard_uploads.joined_c() == 0,
                 // bytes handed to the store by the joined tasks == bytes they reported (value channel + counter channel)
@@ -470,16 +470,16 @@ impl SessionShardInterface {
                 // whatever local the function accumulates in holds exactly the value-channel bytes of the joined tasks
                 /*@C14*/ shard_uploads.joined_v() == shard_bytes_uploaded.vx_local_value(),
                 shard_uploads.ledger_bounded(),
-            ensures /*@C16,C01*/ shard_uploads@.len() == 0,
+            ensures /*@C16,C01,C02*/ shard_uploads@.len() == 0,
             decreases shard_uploads@.len(),
 //@ before `Ok(shard_bytes_uploaded`
         // (c) Ok is returned only with the own task set drained and every result Ok(Ok(_))
-        proof { /*@C16,C01*/ vx_mark_shards_stored(self, pend0, shard_uploads@); lemma_drained_all(pend0, shard_uploads@); }
+        proof { /*@C16,C01,C02*/ vx_mark_shards_stored(self, pend0, shard_uploads@); lemma_drained_all(pend0, shard_uploads@); }
         proof {
             /*@C14*/ vx_counter_quiescent(&shard_bytes_uploaded, &shard_uploads);
             /*@C14*/ vx_mark_shard_bytes(self, &shard_uploads, shard_uploads.joined_h());
         }
-        assert(/*@C16,C01*/ shard_uploads@.len() == 0 && all_ok(pend0));
+        assert(/*@C16,C01,C02*/ shard_uploads@.len() == 0 && all_ok(pend0));
 //@ end
 }
 
@@ -491,7 +491,7 @@ impl SessionShardInterface {
 //@ contract
         ensures
             // the task reports success only if the shard is in the store (or nothing was made visible: dry run)
-            /*@C16,C01*/ ret is Ok ==> dry_run || vx_shard_in_store(si.shard_hash),
+            /*@C16,C01,C02*/ ret is Ok ==> dry_run || vx_shard_in_store(si.shard_hash),
             // bytes reported (return value + added to the shared counter) == bytes handed to upload_shard
             /*@C14*/ ret matches Ok(v) ==> shard_task_post(dry_run, v.val_bytes(),
                         final(shard_bytes_uploaded).added() - old(shard_bytes_uploaded).added(),
@@ -504,10 +504,10 @@ impl SessionShardInterface {
 //@ sig `fn register_new_xorb_for_upload__task(session: Arc<FileUploadSession>, cas_prefix: String, xorb_hash: MerkleHash, xorb_data: Vec<u8>, chunks_and_boundaries: Vec<(MerkleHash, u32)>, upload_permit: OwnedSemaphorePermit) -> (ret: Result<()>)`
 //@ contract
         ensures
-            /*@C16,C01*/ ret is Ok ==> vx_xorb_in_store(xorb_hash),
+            /*@C16,C01,C02*/ ret is Ok ==> vx_xorb_in_store(xorb_hash),
 //@ before `session.deduplication_metrics.lock()`
             // bytes are counted as uploaded only after a successful put
-            assert(/*@C16,C01*/ vx_xorb_in_store(xorb_hash));
+            assert(/*@C16,C01,C02*/ vx_xorb_in_store(xorb_hash));
 //@ end
 
 impl FileUploadSession {
@@ -521,10 +521,10 @@ impl FileUploadSession {
 //@ epilogue `Ok(())`
 //@ contract
         ensures
-            /*@C16,C01*/ final(upload_tasks)@.subset_of(old(upload_tasks)@),
-            /*@C16,C01*/ ret is Ok ==> drained_ok(old(upload_tasks)@, final(upload_tasks)@),
+            /*@C16,C01,C02*/ final(upload_tasks)@.subset_of(old(upload_tasks)@),
+            /*@C16,C01,C02*/ ret is Ok ==> drained_ok(old(upload_tasks)@, final(upload_tasks)@),
 //@ loop 1
-            invariant /*@C16,C01*/ drained_ok(old(upload_tasks)@, upload_tasks@),
+            invariant /*@C16,C01,C02*/ drained_ok(old(upload_tasks)@, upload_tasks@),
             decreases upload_tasks@.len(),
 //@ end
 
@@ -535,7 +535,7 @@ impl FileUploadSession {
 //@ subst `prometheus_metrics::FILTER_BYTES_CLEANED.inc_by` => `prometheus_metrics::FILTER_BYTES_CLEANED().inc_by` :: R6/R11 global prometheus counter (lazy_static) -> stub accessor
 //@ contract
         ensures
-            /*@C16,C01*/ ret is Ok ==> self.shard_interface.vx_xorbs_drained() && self.shard_interface.vx_shards_stored(),
+            /*@C16,C01,C02*/ ret is Ok ==> self.shard_interface.vx_xorbs_drained() && self.shard_interface.vx_shards_stored(),
             // the shard figure of the returned metrics is what upload_and_register_session_shards handed to the store
             /*@C14*/ ret matches Ok((m, _)) ==> self.shard_interface.dry_run || self.shard_interface.vx_shard_bytes_handed(m.shard_bytes_uploaded as int),
             /*@C14*/ ret matches Ok((m, _)) ==> m.total_bytes_uploaded == m.shard_bytes_uploaded + m.xorb_bytes_uploaded,
@@ -547,18 +547,18 @@ impl FileUploadSession {
 //@ after `let mut upload_tasks = take(&mut *self.xorb_upload_tasks.lock());`
         proof { pend0 = upload_tasks@; }
 //@ loop 1
-            invariant /*@C16,C01*/ drained_ok(pend0, upload_tasks@),
-            ensures /*@C16,C01*/ upload_tasks@.len() == 0,
+            invariant /*@C16,C01,C02*/ drained_ok(pend0, upload_tasks@),
+            ensures /*@C16,C01,C02*/ upload_tasks@.len() == 0,
             decreases upload_tasks@.len(),
 //@ before `metrics.shard_bytes_uploaded =`
         // (b) shards are handed to the store only with the xorb task set fully drained and every drained result Ok(Ok(_))
-        assert(/*@C16,C01*/ upload_tasks@.len() == 0);
-        assert(/*@C16,C01*/ drained_ok(pend0, upload_tasks@));
-        proof { /*@C16,C01*/ vx_mark_xorbs_drained(&self.shard_interface, pend0, upload_tasks@); lemma_drained_all(pend0, upload_tasks@); }
-        assert(/*@C16,C01*/ all_ok(pend0));
+        assert(/*@C16,C01,C02*/ upload_tasks@.len() == 0);
+        assert(/*@C16,C01,C02*/ drained_ok(pend0, upload_tasks@));
+        proof { /*@C16,C01,C02*/ vx_mark_xorbs_drained(&self.shard_interface, pend0, upload_tasks@); lemma_drained_all(pend0, upload_tasks@); }
+        assert(/*@C16,C01,C02*/ all_ok(pend0));
 //@ before `Ok((metrics, all_file_info))`
         // (a) Ok is returned only if every result removed from the set was Ok(Ok(_)), and nothing is left in it
-        assert(/*@C16,C01*/ upload_tasks@.len() == 0 && drained_ok(pend0, upload_tasks@));
+        assert(/*@C16,C01,C02*/ upload_tasks@.len() == 0 && drained_ok(pend0, upload_tasks@));
 //@ end
 }
 
